@@ -117,7 +117,9 @@ IpaVerifyDevs(l0, e) ==
   THEN IF ~(AllValid(e.proof.L) /\ AllValid(e.proof.R)) THEN <<>>
        ELSE ELet(IPAVerify(TNew(ihon.label), Cfg, AP, ihon.C, [L |-> Affs(e.proof.L), R |-> Affs(e.proof.R), a |-> e.proof.a], ihon.point, e.result), LAMBDA ref :
               One(e.ok = ref.ok /\ ~e.err, l0, "C02", <<"CheckIPAProof disagrees with the reference verifier", e.pcls, e.rcls>>, <<"ipa_verify", "agreement-perturbed">>) \o
-              One(~e.ok, l0, "C02", <<"CheckIPAProof accepted a proof that differs from the honest one", e.pcls, e.rcls>>, <<"ipa_verify", "accepted-perturbed">>))
+              \* (for special polynomials a "change" may leave the proof as it was: L_1 of the zero polynomial already is the identity)
+              One(e.ok => (SameElems(Affs(e.proof.L), ihon.proof.L) /\ SameElems(Affs(e.proof.R), ihon.proof.R) /\ e.proof.a = ihon.proof.a), l0, "C02",
+                  <<"CheckIPAProof accepted a proof that differs from the honest one", e.pcls, e.rcls>>, <<"ipa_verify", "accepted-perturbed">>))
   ELSE ELet(IPAVerify(TNew(ihon.label), Cfg, AP, ihon.C, ihon.proof, ihon.point, e.result), LAMBDA ref :
        One(e.ok = ref.ok /\ ~e.err, l0, "C02", <<"CheckIPAProof disagrees with the reference verifier", e.pcls, e.rcls>>, <<"ipa_verify", "agreement">>) \o
        One(e.ok = (e.result = ihon.y), l0, "C04", <<"accepted iff result = p(point) violated", e.pcls, e.rcls, e.ok>>, <<"ipa_verify", IF e.ok THEN "accepted-wrong" ELSE "rejected-correct">>))
